@@ -531,6 +531,10 @@ def discharge_partial(an, prog, b, blk, t, c, cls, why):
         v = peel(an.op(b, t["args"][-1]))
         ok = v[0] == "field" and v[1][0] == "downcast" and v[1][2] in ("U24", "I24")
         return ok, ("ranged constructor: argument is the payload of DataNumber::%s (R1.6)" % v[1][2]) if ok else ("%s on a value that is not a U24/I24 payload: %s" % (c.npath, canon(v)[:160]))
+    if cls == "index":
+        idx = [str(a) for a in (c.args or []) + (c.syn_args or [])]
+        if any(a.strip() == "std::ops::RangeFull" for a in idx):
+            return True, "total index: `x[..]` (RangeFull) selects the whole array/slice and cannot be out of range"
     if cls == "documented":
         # documented '# Panics' but no discharge class known
         return False, "%s — no discharge rule for this API: %s" % (c.npath, why)
